@@ -15,39 +15,51 @@ from ..terms import (T, sym, t_mul, t_add, t_cmp, is_num, strip, expand_products
 
 EXPLANATION = (
     "Every function is evaluated by the abstract evaluator (sa.symex) on small abstract inputs; no verdict depends on "
-    "source spelling. R01a: func._contraction evaluated on all 36 (operator kind x space)^2 rows (plus rows with a "
-    "shared index); the returned delta expression is evaluated numerically for every assignment of orbitals of a "
-    "2 occ + 2 virt model to the indices (fresh indices summed over their space) and must equal the expectation value "
-    "<Phi|p q|Phi> computed by applying the operators to the reference determinant; spin-labelled and non-fermionic "
-    "operators must be refused. R01b: _contract_operator_string evaluated on operator tokens (n=2,4,6; 8 thorough) "
-    "with the contraction left symbolic: the result, expanded into products, is every complete pairing exactly once "
-    "with sign (-1)^crossings, the first operator of a pair being the left one; bookkeeping by position for repeated "
-    "(equal) operators; a vanishing contraction removes exactly the pairings that contain it. R01c: "
-    "_has_fully_contracted_contribution evaluated over all 729 counter vectors in {0,1,2}^6 (thorough: also reversed "
-    "and interleaved strings): it may answer False only if the creator/annihilator compatibility graph has no perfect "
-    "matching. R01d: Rules.apply evaluated on rule sets with several tensors and on expressions enumerating all "
-    "(name, block) combinations of one and two objects: the result is the zero expression carrying the assumptions of "
-    "the input plus exactly the terms without an object whose name is restricted AND whose block is excluded for that "
-    "name, each once; empty rules return the input; Rules.is_empty truth table; wicks evaluated on abstract sympy "
-    "expressions (NO/operator, Add, Mul with 0/1/2/4 operators and 0/2 commuting factors, other), with/without rules "
-    "and delta flag: result = [rules.apply(Expr(.)).sympy] [evaluate_deltas(., Einstein targets)] (commuting part x "
-    "_contract_operator_string(operators in order)), zero for a single operator / NO, the term-wise sum of wicks with "
-    "the same rules and flag for Add, doit(wicks=True) before the case split, foreign rules objects refused. R01e: the "
-    "whole pipeline wicks -> _contract_operator_string -> prefilter -> _contraction evaluated end to end on operator "
-    "strings (all 36 pairs, all 1296 strings of four operators over kind x space, strings with repeated operators, "
-    "thorough: six operators in a 3+3 orbital model) times a commuting factor and compared numerically with the "
-    "brute-force expectation value for every orbital assignment.")
+    "source spelling (anchors: the functions wicks, _contract_operator_string, _contraction, "
+    "_has_fully_contracted_contribution, Rules.apply, Rules.is_empty, their parameters, and the sympy/adcgen "
+    "vocabulary they call). Branch conditions over symbolic values are decided by an oracle over the scenario's value "
+    "domain (generic non-zero numbers), so `c is S.Zero`, `c == 0`, `not c` are the same test. "
+    "R01a: func._contraction evaluated on all 36 (operator kind x space)^2 rows plus the rows with a shared index; "
+    "the returned delta expression is evaluated numerically for every assignment of the orbitals of a 2 occ + 2 virt "
+    "model to the indices (a fresh index is summed over its space) and must equal <Phi|p q|Phi> computed by applying "
+    "the operators to the reference determinant; a row whose expectation value vanishes identically must return the "
+    "canonical zero (the recursion prunes on it); spin-labelled and non-fermionic operators must be refused. "
+    "R01b: _contract_operator_string evaluated on operator tokens (n=2,4,6; 8 thorough) with the contraction left "
+    "symbolic: the result, expanded into products, is every complete pairing exactly once with sign (-1)^crossings, "
+    "the first argument of a contraction being the left operator; bookkeeping by position for repeated (equal) "
+    "operators; vanishing contractions remove exactly the pairings that contain them (n=4, n=6). R01c: "
+    "_has_fully_contracted_contribution evaluated over all 729 counter vectors in {0,1,2}^6, creators first and "
+    "reversed (thorough: also interleaved): it may answer False only if the creator/annihilator compatibility graph "
+    "has no perfect matching. R01d: Rules.apply evaluated on three rule sets with several tensors on an expression "
+    "enumerating all (name, block) combinations of one and two objects (156 terms each): the result is Expr(0) "
+    "carrying the assumptions of the input plus exactly the terms without an object whose name is restricted AND whose "
+    "block is excluded for that name, each once; empty rules (None, {}) return the input; non-Expr input refused; "
+    "Rules.is_empty truth table; wicks evaluated on abstract sympy expressions (NO / bare operator, Add, Mul with "
+    "0/1/2/4 operators and 0/2 commuting factors, symbol, tensor) x (rules None/given) x (delta flag): the result is "
+    "[rules.apply(Expr(.)).sympy] [evaluate_deltas(., target_idx=None)] (commuting part x "
+    "_contract_operator_string(operators in order)) with a type discipline on the layers (Expr wraps a plain object "
+    "without assumptions, apply maps container to container outside the delta evaluation, a plain object is "
+    "returned), zero for a single operator / NO / bare operator, the term-wise sum of wicks(term, same rules, same "
+    "flag) for Add, doit(wicks=True) before the case split, foreign rules objects refused. R01e: the whole pipeline "
+    "wicks -> _contract_operator_string -> prefilter -> _contraction evaluated end to end on A * operator string "
+    "(all 6+36+216+1296 strings of one to four operators over kind x space, strings with repeated operators or "
+    "indices, six operators in a 3+3 orbital model) and compared numerically with 3 * the brute-force expectation "
+    "value for every orbital assignment.")
 ASSUMPTIONS = [
     "sympy's NO.doit(wicks=True)/expand, Mul/Add and KroneckerDelta algebra are trusted (modelled as doit/expand "
-    "giving a sum of products, Mul/Add as product/sum, KroneckerDelta(i, j) as [orbital(i) == orbital(j)])",
-    "equality with the Fermi-vacuum expectation value is decided for operator strings of at most 4 (thorough: 6) "
-    "operators in a model with 2 (3) occupied and 2 (3) virtual orbitals, one index per operator or repeated "
-    "operators; longer strings are covered structurally by R01b (signed pairings up to n=8) only",
+    "giving a sum of products, Mul/Add as product/sum, KroneckerDelta(i, j) as [orbital(i) == orbital(j)], S.Zero as "
+    "0); the short cut NO -> 0 is required as written (its removal would rely on sympy's bracket removal)",
+    "equality with the Fermi-vacuum expectation value is decided for operator strings of at most 4 (a few of 6 and "
+    "8) operators in a model with 2 (3) occupied and 2 (3) virtual orbitals; longer strings are covered structurally "
+    "by R01b (signed pairings up to n=8) only",
     "a fresh Index created by the contraction of two general indices is taken to be summed over its space "
     "(above_fermi/below_fermi); its name is not checked",
-    "evaluate_deltas and Rules.apply are uninterpreted inside wicks (their own behaviour: evaluate_deltas is not "
-    "decided here, Rules.apply by its decision table); that the prefilter is *consulted* is not required (it is an "
-    "optimisation: R01c decides its soundness, R01e the composed result)",
+    "evaluate_deltas and Rules.apply are uninterpreted inside wicks (evaluate_deltas itself is not decided here, "
+    "Rules.apply by its own decision table); inside wicks a string with an odd number of operators is taken to have "
+    "no complete contraction (decided for the code by R01c/R01e)",
+    "not required any more: that _contract_operator_string *consults* the prefilter (an optimisation without "
+    "influence on the value: R01c decides its soundness, R01e the composed result) and the source-level shape of "
+    "the commuting/non-commuting partition loop (decided through the evaluated product instead)",
 ]
 
 FUNC = "func"
@@ -80,7 +92,8 @@ def _index(name, space, spin=""):
 
 
 def _operator(kind, idx, pos=None, label=None):
-    classes = (kind, "FermionicOperator", "SqOperator", "Expr", "Basic") if kind in KINDS else (kind,)
+    alias = {"F": ("AnnihilateFermion", "Annihilator"), "Fd": ("CreateFermion", "Creator")}
+    classes = (kind,) + alias[kind] + ("FermionicOperator", "SqOperator", "Expr", "Basic") if kind in KINDS else (kind,)
     return _Op(None, f"{kind}[{idx.attrs['name']}]" + ("" if pos is None else f"@{pos}"), _classes=classes, args=[idx],
                state=idx, label=label if label is not None else (kind, idx.attrs["name"]), pos=pos, is_commutative=False,
                is_number=False)
@@ -507,7 +520,7 @@ def r01c(ctx):
     ctx.check(rule, ctx.model.cls("indices:Indices"), isinstance(base, dict) and set(base) == set(SPACES),
               "Indices.base has the three spaces", f"Indices.base is {show(base)[:120]}", key="base keys")
     sx = Symex(ctx.model, inline=_inline_except(), hooks=_hooks(), what="_has_fully_contracted_contribution")
-    orders = ["creators first"] if ctx.tier == "quick" else ["creators first", "reversed", "interleaved"]
+    orders = ["creators first", "reversed"] if ctx.tier == "quick" else ["creators first", "reversed", "interleaved"]
     bad = 0
     n = 0
     for counts in itertools.product(range(3), repeat=6):
@@ -534,7 +547,7 @@ def r01c(ctx):
                             f"admit a complete contraction ({order})", key=f"counts {counts}")
             else:
                 ctx.ok(rule, fn, f"counts {counts} {order}: answer {val} sound")
-    ctx.floor(rule, "counter vectors", n, 729)
+    ctx.floor(rule, "operator strings given to the prefilter", n, 2 * 729)
 
 
 # ---------------------------------------------------------------------------
@@ -665,6 +678,9 @@ class _WicksScenario:
                     is_commutative=False, is_number=False)
         elif self.kind == "Mul":
             X = Obj(None, "X", _classes=("Mul", "Expr", "Basic"), args=args, is_commutative=commut, is_number=False)
+        elif self.kind in KINDS:     # a bare operator: doit/expand give the operator itself
+            X = Obj(None, "X", _classes=(self.kind, "FermionicOperator", "SqOperator", "Expr", "Basic"),
+                    args=[_index("x0", "general")], is_commutative=False, is_number=False)
         else:
             X = Obj(None, "X", _classes=(self.kind, "Expr", "Basic"), args=[], is_commutative=True, is_number=False)
         D = Obj(None, "D", _expanded=X, _classes=X.attrs["_classes"], is_commutative=X.attrs["is_commutative"],
@@ -745,8 +761,24 @@ def _layer_types(layers):
     return t, None
 
 
+def _is_zero(v):
+    v = _term(v)
+    return not expand_products(strip(v, mcalls=TRANSPARENT_MCALLS)) if isinstance(v, T) or is_num(v) else False
+
+
 def _wicks_run(ctx, scen, rules, flag):
-    sx = Symex(ctx.model, what="wicks", hooks=scen.hooks(), max_paths=64,
+    fn_c = ctx.model.fn(f"{FUNC}:_contract_operator_string")
+
+    def contract(sx, a, kw):
+        # uninterpreted, except that a string with an odd number of operators has no complete contraction
+        # (decided by R01c/R01e for the code itself)
+        ops = sx.bind(fn_c, a, kw).get("op_string")
+        if isinstance(ops, (list, tuple)) and len(ops) % 2:
+            return 0
+        return NotImplemented
+    hooks = scen.hooks()
+    hooks["_contract_operator_string"] = contract
+    sx = Symex(ctx.model, what="wicks", hooks=hooks, max_paths=64,
                inline=_inline_except("func:wicks", "func:_contract_operator_string", "func:evaluate_deltas",
                                      "rules:Rules.apply"))
     sx.on_start = _assume_not_none("rules", "expr", "X", "D")
@@ -768,10 +800,10 @@ def r01d_wicks(ctx):
     # NO / single operator: zero
     for top in (("NO",), ("F", "FermionicOperator"), ("Fd", "FermionicOperator")):
         for rules, flag in combos:
-            scen = _WicksScenario("Mul", 2, 0, top=top)
+            scen = _WicksScenario("Mul", 2, 0, top=top) if top[0] == "NO" else _WicksScenario(top[0], top=top)
             outs = _wicks_run(ctx, scen, rules, flag)
             n += 1
-            ctx.check(rule, w, all(o.kind == "return" and _peel(o.value)[1] == 0 for o in outs),
+            ctx.check(rule, w, all(o.kind == "return" and _is_zero(_peel(o.value)[1]) for o in outs),
                       f"{top[0]} alone gives zero", f"wicks of a bare {top[0]} object gives {outs[:2]}, expected zero",
                       key=f"bare {top[0]}")
     # Mul / other
@@ -790,7 +822,7 @@ def r01d_wicks(ctx):
                     continue
                 layers, core = _peel(o.value)
                 if kind == "Mul" and k == 1:
-                    ctx.check(rule, w, core == 0, "single operator gives zero",
+                    ctx.check(rule, w, _is_zero(core), "single operator gives zero",
                               f"wicks of {what} gives {show(_term(o.value))[:200]}, expected zero", key="single op")
                     continue
                 # 1. the core value
@@ -940,7 +972,7 @@ def r01e(ctx):
     dom = list(itertools.product(KINDS, SPACES))
     n = 0
     shown = 0
-    for size in (2, 4):
+    for size in (1, 2, 3, 4):
         for string in itertools.product(dom, repeat=size):
             why = _e2e(ctx, list(string), 2)
             n += 1
@@ -968,19 +1000,21 @@ def r01e(ctx):
         label = " ".join(f"{k}_{s}" for k, s in string) + f" repeated {repeat}"
         ctx.check(rule, w, why is None, f"<{label}> equals the expectation value", f"A * <{label}>: {why}",
                   key=f"repeated {label}")
+    six = [[("F", "virt"), ("Fd", "virt"), ("F", "virt"), ("Fd", "virt"), ("F", "virt"), ("Fd", "virt")],
+           [("Fd", "occ"), ("F", "virt"), ("F", "general"), ("Fd", "general"), ("Fd", "virt"), ("F", "occ")]]
     if ctx.tier != "quick":
-        six = [[("F", "virt"), ("Fd", "virt"), ("F", "virt"), ("Fd", "virt"), ("F", "virt"), ("Fd", "virt")],
-               [("Fd", "occ"), ("F", "occ"), ("Fd", "occ"), ("F", "occ"), ("Fd", "occ"), ("F", "occ")],
-               [("Fd", "occ"), ("F", "virt"), ("F", "general"), ("Fd", "general"), ("Fd", "virt"), ("F", "occ")],
-               [("Fd", "occ"), ("Fd", "occ"), ("F", "virt"), ("Fd", "virt"), ("F", "occ"), ("F", "occ")],
-               [("F", "virt"), ("F", "virt"), ("F", "virt"), ("Fd", "virt"), ("Fd", "virt"), ("Fd", "virt")]]
+        six += [[("Fd", "occ"), ("F", "occ"), ("Fd", "occ"), ("F", "occ"), ("Fd", "occ"), ("F", "occ")],
+                [("Fd", "occ"), ("Fd", "occ"), ("F", "virt"), ("Fd", "virt"), ("F", "occ"), ("F", "occ")],
+                [("F", "virt"), ("F", "virt"), ("F", "virt"), ("Fd", "virt"), ("Fd", "virt"), ("Fd", "virt")],
+                [("Fd", "general"), ("F", "general"), ("Fd", "occ"), ("F", "occ"), ("F", "virt"), ("Fd", "virt")]]
+    if True:
         for string in six:
             why = _e2e(ctx, string, 3)
             n += 1
             label = " ".join(f"{k}_{s}" for k, s in string)
             ctx.check(rule, w, why is None, f"<{label}> equals the expectation value (3+3 orbitals)", f"A * <{label}>: {why}",
                       key=f"six {label}")
-    ctx.floor(rule, "operator strings evaluated end to end", n, 1300)
+    ctx.floor(rule, "operator strings evaluated end to end", n, 1500)
 
 
 def run(ctx):
